@@ -89,3 +89,86 @@ def check_scripts(prop, tier):
         return res.finish(tier)
     finally:
         shutil.rmtree(work, ignore_errors=True)
+
+
+# --------------------------------------------------------------------------- X10 / X11: the code follows the Impl modules
+
+def norm_ties(x):
+    """Equality modulo what the model does not have: Python's string order.  Entries with the same times (sorted by label
+    in the code) and the order in which merged labels are joined are normalised away."""
+    if isinstance(x, dict):
+        if "ents" in x and isinstance(x["ents"], list):
+            ents = []
+            for en in x["ents"]:
+                en = dict(en)
+                if isinstance(en.get("l"), str):
+                    en["l"] = "-".join(sorted(en["l"].split("-")))
+                ents.append(en)
+            ents.sort(key=lambda en: (en.get("s", en.get("t", 0)), en.get("e", 0), str(en.get("l"))))
+            x = dict(x, ents=ents)
+        return {k: norm_ties(v) if k != "ents" else v for k, v in x.items()}
+    if isinstance(x, list):
+        return [norm_ties(v) for v in x]
+    return x
+
+
+def check_refine(prop, tier):
+    """spec -> code: every transition TLC enumerates for the Impl module is executed on the real objects (dyadic embedding, exact
+    arithmetic) and status, returned value and receiver afterwards must be the ones the Impl action computed."""
+    from . import checks_tier as CT
+    from . import checks_tg as CG
+    from . import tg as G
+    res = common.Result(prop)
+    work = common.scratch()
+    clause = prop + ("_real_step_equals_TierImpl_action" if prop == "X10" else "_real_step_equals_TgImpl_action")
+    try:
+        T.praatio()
+        if prop == "X10":
+            cfg = dict(CT.PROPS["C05"])
+            cfg["quick"], cfg["thorough"] = dict(N=3, K=2, Depth=1), dict(N=4, K=2, Depth=1)
+            vectors, fail, consts = CT.run_mc("C05", cfg, tier, work, res)
+            if fail:
+                sys.stderr.write(fail[0])
+                raise common.MachineryError("MC_Tier failed at design level")
+            events = T.replay(vectors, [("dy", "ascii")], 0)
+            fields = ("st", "ret", "post")
+        else:
+            sz = CG.SIZES[tier]
+            jobs = [CG._cfg(work, "tg_emit", sz["emit"], CG.MAP_OPS, "map", True)]
+            nsl = common.NCPU - 1
+            jobs += [CG._cfg(work, "tg_edit%d" % sl, sz["edit"], CG.EDIT_OPS, "edit", True, sl, nsl) for sl in range(nsl)]
+            vectors = []
+            with ThreadPoolExecutor(max_workers=common.NCPU) as ex:
+                for r in ex.map(lambda fn: common.run_tlc("MC_Tg", fn, work, workers=1, timeout=7200), jobs):
+                    res.add_tlc(r)
+                    if common.tlc_failed(r):
+                        sys.stderr.write(r["out"][-3000:])
+                        raise common.MachineryError("MC_Tg failed at design level")
+                    vectors.extend(common.parse_json_lines(r["out"]))
+            events = G.replay(vectors, [("dy", "ascii")], 0)
+            fields = ("st", "ret", "rett", "post")
+        res.exhaustive = True
+        events = events[:len(vectors)]
+        nbroken = 0
+        for v, ev in zip(vectors, events):
+            if ev.get("broken"):
+                nbroken += 1
+                res.violations.append((prop + "_api_call_sequence_crashed_outside_the_call_under_test", ev))
+                continue
+            res.evaluations += 1
+            res.distinct.add((v["op"], v["st"], json.dumps(v["args"], sort_keys=True)[:60]))
+            diff = [k for k in fields if k in v and norm_ties(v[k]) != norm_ties(ev.get(k))]
+            if diff:
+                res.per_clause[clause] = res.per_clause.get(clause, 0) + 1
+                res.violations.append((clause, dict(ev, impl={k: v[k] for k in diff}, differs=diff)))
+        res.traces = res.evaluations
+        if events:
+            res.add_sample({k: events[0].get(k) for k in ("op", "args", "pre", "st", "ret", "post")})
+        res.notes = dict(enumerated=len(vectors), broken=nbroken)
+        res.assumptions = ["equality is modulo the order of entries with identical times and the order of the parts of merged labels "
+                           "(both come from Python's string order, which the model does not have)",
+                           "dyadic embedding only: under inexact arithmetic the grid model and the floats part ways at ties"]
+        res.rule = "every transition of the bounded TLC model executed on real objects; compared: status, return value, receiver afterwards"
+        return res.finish(tier)
+    finally:
+        shutil.rmtree(work, ignore_errors=True)
